@@ -560,102 +560,6 @@ Section InstallProofs.
 End InstallProofs.
 
 (* ====================================================================== *)
-(* install_if: ONE install order (was finding C01-F1, fixed by c03e0c0)       *)
-(* ====================================================================== *)
-Lemma mem_In x l : mem x l = true <-> In x l.
-Proof.
-  induction l as [|y l IH]; simpl; [split; [discriminate | intros []]|].
-  rewrite orb_true_iff, IH, String.eqb_eq. split; intros [H|H]; auto.
-Qed.
-
-Lemma NoDup_snoc {A} (l : list A) x : NoDup l -> ~ In x l -> NoDup (l ++ [x]).
-Proof.
-  induction l as [|a l IH]; simpl; intros H N; [constructor; [intros []|constructor]|].
-  inversion H as [|? ? Ha Hl]; subst. constructor.
-  - intro Hc. apply in_app_or in Hc. destruct Hc as [Hc|[Hc|[]]]; [contradiction | subst; apply N; left; reflexivity].
-  - apply IH; [exact Hl | intro Hc; apply N; right; exact Hc].
-Qed.
-
-Lemma ii_lookup_names m k p : In p (ii_lookup m k) -> In (ii_name p) (ii_names m).
-Proof.
-  induction m as [|[k' v] m IH]; simpl; [intros []|]. intros H. apply in_or_app.
-  destruct (String.eqb k k'); [left; apply in_map; exact H | right; apply IH; exact H].
-Qed.
-
-(* what the loop has appended so far: new names, each once, all of them names of
-   install_if packages of the map *)
-Definition ii_ext (m : list (string * list iipkg)) (deps0 deps : list string) : Prop :=
-  exists extra, deps = deps0 ++ extra /\ NoDup extra /\ incl extra (ii_names m) /\ (forall x, In x extra -> ~ In x deps0).
-
-Lemma ii_try_ext m deps0 deps p : In (ii_name p) (ii_names m) -> ii_ext m deps0 deps -> ii_ext m deps0 (ii_try deps p).
-Proof.
-  intros Hp [extra [E [N [I D]]]]. unfold ii_try.
-  destruct (forallb (fun s => mem s deps) (ii_if p) && negb (mem (ii_name p) deps)) eqn:B; [|exists extra; auto].
-  apply andb_true_iff in B. destruct B as [_ B]. apply negb_true_iff in B.
-  assert (Hn : ~ In (ii_name p) deps) by (rewrite <- mem_In; congruence).
-  exists (extra ++ [ii_name p]). subst deps. split; [rewrite app_assoc; reflexivity|]. split; [|split].
-  - apply NoDup_snoc; [exact N | intro H; apply Hn; apply in_or_app; right; exact H].
-  - intros x Hx. apply in_app_or in Hx. destruct Hx as [Hx|[<-|[]]]; [apply I; exact Hx | exact Hp].
-  - intros x Hx. apply in_app_or in Hx. destruct Hx as [Hx|[<-|[]]]; [apply D; exact Hx|].
-    intro H. apply Hn. apply in_or_app. left. exact H.
-Qed.
-
-Lemma ii_visit_ext m deps0 deps d : ii_ext m deps0 deps -> ii_ext m deps0 (ii_visit m deps d).
-Proof.
-  unfold ii_visit. intros H.
-  assert (G : forall l, (forall p, In p l -> In (ii_name p) (ii_names m)) -> forall deps, ii_ext m deps0 deps -> ii_ext m deps0 (fold_left ii_try l deps)).
-  { induction l as [|p l IH]; intros Hl deps' H'; [exact H'|]. simpl. apply IH; [intros q Hq; apply Hl; right; exact Hq|].
-    apply ii_try_ext; [apply Hl; left; reflexivity | exact H']. }
-  apply G; [intros p Hp; eapply ii_lookup_names; exact Hp | exact H].
-Qed.
-
-Lemma ii_ext_length m deps0 deps : ii_ext m deps0 deps -> List.length deps <= List.length deps0 + List.length (ii_names m).
-Proof.
-  intros [extra [-> [N [I _]]]]. rewrite app_length. pose proof (NoDup_incl_length N I). lia.
-Qed.
-
-Lemma ii_ext_trans m deps0 deps : ii_ext m deps0 deps -> exists extra, deps = deps0 ++ extra /\ NoDup extra /\ (forall x, In x extra -> ~ In x deps0).
-Proof. intros [extra [E [N [_ D]]]]. exists extra. auto. Qed.
-
-Lemma ii_loop_total m deps0 : forall fuel i deps, ii_ext m deps0 deps ->
-  List.length deps0 + List.length (ii_names m) < fuel + i ->
-  exists l, ii_loop fuel m i deps = Some l /\ ii_ext m deps0 l.
-Proof.
-  induction fuel as [|f IH]; intros i deps H L; cbn [ii_loop].
-  - destruct (nth_error deps i) eqn:E; [|exists deps; split; [reflexivity | exact H]]. exfalso.
-    assert (i < List.length deps) by (apply nth_error_Some; congruence).
-    pose proof (ii_ext_length m deps0 deps H). simpl in L. lia.
-  - destruct (nth_error deps i) as [d|]; [|exists deps; split; [reflexivity | exact H]].
-    apply IH; [apply ii_visit_ext; exact H | lia].
-Qed.
-
-(* the loop ends within its fuel, with ONE list: the dependency list it started
-   with, followed by new names, each once *)
-Lemma install_if_one_order m deps :
-  exists l, install_if_pass m deps = Some l /\
-    exists extra, l = deps ++ extra /\ NoDup extra /\ (forall x, In x extra -> ~ In x deps).
-Proof.
-  unfold install_if_pass.
-  destruct (ii_loop_total m deps (S (List.length deps + List.length (ii_names m))) 0 deps) as [l [E H]].
-  - exists []. rewrite app_nil_r. split; [reflexivity|]. split; [constructor|]. split; [intros x []|intros x []].
-  - lia.
-  - exists l. split; [exact E|]. apply (ii_ext_trans m). exact H.
-Qed.
-
-(* the witness of the former refutation, and a chain *)
-Definition ii_universe : list (string * list iipkg) :=
-  [("d1", [{| ii_name := "x1"; ii_if := ["d1"] |}]); ("d2", [{| ii_name := "x2"; ii_if := ["d2"] |}])].
-
-(* no trigger at all: nothing is appended *)
-Lemma ii_loop_none m : (forall d, ii_lookup m d = []) -> forall fuel i deps l, ii_loop fuel m i deps = Some l -> l = deps.
-Proof.
-  intros H. induction fuel as [|f IH]; intros i deps l E; cbn [ii_loop] in E.
-  - destruct (nth_error deps i); [discriminate | inversion E; reflexivity].
-  - destruct (nth_error deps i) as [d|]; [|inversion E; reflexivity].
-    unfold ii_visit in E. rewrite H in E. simpl in E. apply IH in E. exact E.
-Qed.
-
-(* ====================================================================== *)
 (* output tarball member order (finding C01-F2)                             *)
 (* ====================================================================== *)
 Lemma tarball_order_refuted :
